@@ -6,7 +6,7 @@ from typing import Any, Dict, List, Tuple
 
 from mc.common import Acc
 from mc.recv_driver import replay as _replay
-from mc.recv_driver import run_scenarios
+from mc.recv_driver import mark_stateless, run_scenarios
 from mc.recv_world import RecvWorld
 
 W_HOOKS = ["pre_execute", "on_error", "post_execute", "post_save"]
@@ -266,6 +266,8 @@ def run_client(cases: List[Tuple[Any, ...]], acc: Acc) -> None:
 
 def shards(tier: str, seed: int) -> List[Any]:
     scs = worker_scenarios(tier)
+    if tier == "thorough":
+        mark_stateless(scs, 6, 12)
     scs.sort(key=lambda s: (-s["level"], -len(s["msgs"]), -len(s["mws"])))
     big = [s for s in scs if len(s["msgs"]) > 1]
     small = [s for s in scs if len(s["msgs"]) == 1]
